@@ -92,7 +92,9 @@ class Gen:
         return "g%d-%s" % (self.n, fam)
 
     def I(self, T):
-        return interval(self.k, T)
+        # at least 1 s: the generator advances its clock by this amount in loops; constants that were not recognised are
+        # regenerated as 0 (Gen/Consts.v), which must end in a verdict, not in a generator that never terminates
+        return max(1, interval(self.k, T))
 
     def goodT(self):
         return self.r.choice([t for t in TIMEOUTS if t > self.k["min_renew"]] or [45])
